@@ -278,6 +278,121 @@ func TestVerifFeeMarketRows(t *testing.T) {
 		}
 	}
 
+	// (3) window sum overflowing at every slot position (same second, so the slots keep their place): slot j holds
+	// nearly the whole word, the next slot tips the running sum over, the remaining slots are small
+	{
+		M := uint64(math.MaxUint64)
+		for c2 := 0; c2 < 2; c2++ {
+			var p, l [fees.FeeDimensions]uint64
+			var win [fees.FeeDimensions][window.WindowSize]uint64
+			r := &rules{}
+			for d := 0; d < fees.FeeDimensions; d++ {
+				j := c2*fees.FeeDimensions + d
+				for i := j + 1; i < window.WindowSize; i++ {
+					win[d][i] = uint64(7 + i)
+				}
+				win[d][j] = M - 5 - uint64(j)
+				if j%2 == 1 {
+					win[d][j] = 1<<63 + uint64(j)
+					if j+1 < window.WindowSize {
+						win[d][j+1] = 1 << 63
+					}
+				}
+				p[d], l[d] = 1000+uint64(j), 100
+				r.target[d], r.denom[d], r.min[d] = 1_000_000, 48, 1
+			}
+			emit("sumoverflow", ifees.NewManager(encodeState(700, p, win, l)), p, l, win, 700, 700_500, r)
+		}
+	}
+	// (4) a multi-block history through the real API: one block consumes nearly the whole word, later blocks (1-3 s
+	// apart, inside the window) consume a little, so the huge slot wanders through every position of the window
+	{
+		M := uint64(math.MaxUint64)
+		cons := []uint64{M - 10, 500, 1 << 63, 1<<63 + 5, 3, M, 1, 1 << 62, 9, 1 << 63, 77, 2}
+		dts := []int64{1, 2, 1, 1, 3, 1, 2, 1, 1, 1, 2, 1}
+		steps := len(cons)
+		if os.Getenv("VERIF_TIER") == "quick" {
+			steps = 7
+		}
+		var p, l [fees.FeeDimensions]uint64
+		var win [fees.FeeDimensions][window.WindowSize]uint64
+		r := &rules{}
+		for d := 0; d < fees.FeeDimensions; d++ {
+			p[d] = 1_000_000 + uint64(d)
+			r.target[d], r.denom[d], r.min[d] = 1_000_000, uint64(2+d*11), 1
+		}
+		sec := uint64(2000)
+		m := ifees.NewManager(encodeState(sec, p, win, l))
+		for k := 0; k < steps; k++ {
+			for d := 0; d < fees.FeeDimensions; d++ {
+				m.SetLastConsumed(fees.Dimension(d), cons[(k+d)%len(cons)])
+			}
+			m = ifees.NewManager(append([]byte{}, m.Bytes()...))
+			p, l, win = decodeAll(m)
+			now := int64(sec+uint64(dts[(k)%len(dts)]))*1000 + 10
+			m = emit("history", m, p, l, win, sec, now, r)
+			sec = uint64(now / 1000)
+		}
+	}
+	// (5) direct rows of the window package: Roll / Sum / Update with near-max slots at every position
+	{
+		M := uint64(math.MaxUint64)
+		rolls := []uint64{0, 1, 3, 9, 10, 11, 1 << 40, 2, 5, 7}
+		units := []uint64{M, 1 << 63, 1, 0, M - 1, 100, 1<<63 + 1, 5, M, 1 << 62}
+		nwin := window.WindowSize
+		if os.Getenv("VERIF_TIER") != "quick" {
+			nwin += 100
+		}
+		for j := 0; j < nwin; j++ {
+			var ws [window.WindowSize]uint64
+			var roll, unit uint64
+			slot := (j * 3) % window.WindowSize
+			if j < window.WindowSize {
+				for i := range ws {
+					ws[i] = uint64(i + 1)
+				}
+				ws[j] = M - uint64(j) - 1
+				if j+1 < window.WindowSize {
+					ws[j+1] = 1 << 63
+				}
+				roll, unit = rolls[j], units[j]
+			} else {
+				for i := range ws {
+					if rng.Intn(3) > 0 {
+						ws[i] = wide(rng)
+					}
+				}
+				roll, unit = sinceChoice(rng, false), wide(rng)
+			}
+			id++
+			if only >= 0 && id != only {
+				continue
+			}
+			var w0 window.Window
+			for i, v := range ws {
+				binary.BigEndian.PutUint64(w0[8*i:], v)
+			}
+			dec := func(w window.Window) []uint64 {
+				o := make([]uint64, window.WindowSize)
+				for i := range o {
+					o[i] = binary.BigEndian.Uint64(w[8*i:])
+				}
+				return o
+			}
+			rolled := window.Roll(w0, roll)
+			upd := w0
+			window.Update(&upd, slot*8, unit)
+			row := map[string]any{"ev": "win", "cls": "window", "call": id, "d": 0, "w": uss(ws[:]), "roll": us(roll),
+				"rolled": uss(dec(rolled)), "sum_w": us(window.Sum(w0)), "sum_rolled": us(window.Sum(rolled)),
+				"slot": slot + 1, "units": us(unit), "updated": uss(dec(upd)), "sum_updated": us(window.Sum(upd)),
+				"last_slot": us(window.Last(&w0))}
+			if err := w.enc.Encode(row); err != nil {
+				t.Fatal(err)
+			}
+			w.rows++
+		}
+	}
+
 	for c := 0; c < calls; {
 		small := rng.Intn(4) == 0 || c == 0 // the first seeded chain is always small-valued (TLC half of the binding)
 		cls := "wide"
